@@ -208,6 +208,10 @@ func (g *generatorContext) parseTerm(slexer *structLexer, allowUnknown bool) (no
 
 // Parse modifiers: ?, *, + and/or !
 func (g *generatorContext) parseModifier(slexer *structLexer, expr node) (node, error) {
+	if expr == nil {
+		// Nothing to modify: a stray modifier is reported by the caller as unexpected input.
+		return nil, nil
+	}
 	out := &group{expr: expr}
 	t, err := slexer.Peek()
 	if err != nil {
@@ -252,6 +256,9 @@ func (g *generatorContext) parseCapture(slexer *structLexer) (node, error) {
 	n, err := g.parseTermNoModifiers(slexer, false)
 	if err != nil {
 		return nil, err
+	}
+	if n == nil {
+		return nil, fmt.Errorf("capture (@) must be followed by an expression")
 	}
 	return &capture{field, n}, nil
 }
@@ -372,6 +379,9 @@ func (g *generatorContext) parseNegation(slexer *structLexer) (node, error) {
 	next, err := g.parseTermNoModifiers(slexer, false)
 	if err != nil {
 		return nil, err
+	}
+	if next == nil {
+		return nil, fmt.Errorf("negation (!) must be followed by an expression")
 	}
 	return &negation{next}, nil
 }
